@@ -233,10 +233,13 @@ AGGR_OPS = [ASTOperation.SUM, ASTOperation.AVG, ASTOperation.LEN, ASTOperation.F
 @contract(FM, 'Constraint.is_logical_constraint', prop='C18')
 class IsLogical:
     models = staticmethod(ctc_models)
-    # the operator scan of the dependency walks the tree with an explicit stack (no invariant): the clause is evaluated natively;
-    # callers use the predicate as a pure function of the constraint and the heap
+    # callers use the predicate as a pure function of the constraint and the heap; post_ops (native) states the same clause
+    # with an independent recursive scan
     as_function = True
     native_only = ('post_ops',)
+
+    def post_tree(self, result):
+        return result == all_ops_logical(self.ast.root)
 
     def post_ops(self, result):
         return result == all(o in LOGICAL_OPS for o in ops_of(self.ast.root))
@@ -245,10 +248,11 @@ class IsLogical:
 @contract(FM, 'Constraint.is_arithmetic_constraint', prop='C18')
 class IsArithmetic:
     models = staticmethod(ctc_models)
-    # the operator scan of the dependency walks the tree with an explicit stack (no invariant): the clause is evaluated natively;
-    # callers use the predicate as a pure function of the constraint and the heap
     as_function = True
     native_only = ('post_ops',)
+
+    def post_tree(self, result):
+        return result == some_op_arithmetic(self.ast.root)
 
     def post_ops(self, result):
         return result == any(o in ARITH_OPS for o in ops_of(self.ast.root))
@@ -257,10 +261,11 @@ class IsArithmetic:
 @contract(FM, 'Constraint.is_aggregation_constraint', prop='C18')
 class IsAggregation:
     models = staticmethod(ctc_models)
-    # the operator scan of the dependency walks the tree with an explicit stack (no invariant): the clause is evaluated natively;
-    # callers use the predicate as a pure function of the constraint and the heap
     as_function = True
     native_only = ('post_ops',)
+
+    def post_tree(self, result):
+        return result == some_op_aggregation(self.ast.root)
 
     def post_ops(self, result):
         return result == any(o in AGGR_OPS for o in ops_of(self.ast.root))
@@ -293,6 +298,10 @@ class IsComplex:
     def post_consistent(self, result):
         return result == (all(o in LOGICAL_OPS for o in ops_of(self.ast.root))
                           and not (req_form(self.ast.root) or exc_form(self.ast.root)))
+
+    def post_tree(self, result):
+        # complex = logical and in none of the documented simple forms
+        return result == (all_ops_logical(self.ast.root) and not (req_form(self.ast.root) or exc_form(self.ast.root)))
 
 
 @contract(FM, 'Constraint.is_pseudocomplex_constraint', prop='C18')
@@ -440,3 +449,88 @@ class GetStrictComplexConstraints:
 
     def post(self, result):
         return result == [c for c in self.ctcs if c.is_strictcomplex_constraint()]
+
+
+# ------------------------------------------------------------------ the operator scan of the dependency (explicit stack)
+from contracts.api import top, popped, no_more
+
+
+@spec
+def all_ops_logical(n: 'Node') -> bool:
+    """every operator get_operators visits in the tree is a logical operator (operands of aggregates are not visited)"""
+    if n is None:
+        return True
+    own = (n.data in LOGICAL_OPS) if n.is_op() else True
+    if n.is_unary_op():
+        return own and all_ops_logical(n.left)
+    if n.is_binary_op():        # also a term that has children (ill-formed): the scan descends into it
+        return own and all_ops_logical(n.left) and all_ops_logical(n.right)
+    return own
+
+
+@spec
+def waiting_all_logical(st: 'Stack[Node]') -> bool:
+    if no_more(st):
+        return True
+    return all_ops_logical(top(st)) and waiting_all_logical(popped(st))
+
+
+@spec
+def some_op_arithmetic(n: 'Node') -> bool:
+    if n is None:
+        return False
+    own = (n.data in ARITH_OPS) if n.is_op() else False
+    if n.is_unary_op():
+        return own or some_op_arithmetic(n.left)
+    if n.is_binary_op():
+        return own or some_op_arithmetic(n.left) or some_op_arithmetic(n.right)
+    return own
+
+
+@spec
+def waiting_some_arithmetic(st: 'Stack[Node]') -> bool:
+    if no_more(st):
+        return False
+    return some_op_arithmetic(top(st)) or waiting_some_arithmetic(popped(st))
+
+
+@spec
+def some_op_aggregation(n: 'Node') -> bool:
+    if n is None:
+        return False
+    own = (n.data in AGGR_OPS) if n.is_op() else False
+    if n.is_unary_op():
+        return own or some_op_aggregation(n.left)
+    if n.is_binary_op():
+        return own or some_op_aggregation(n.left) or some_op_aggregation(n.right)
+    return own
+
+
+@spec
+def waiting_some_aggregation(st: 'Stack[Node]') -> bool:
+    if no_more(st):
+        return False
+    return some_op_aggregation(top(st)) or waiting_some_aggregation(popped(st))
+
+
+@contract(CORE_AST, 'AST.get_operators', prop='C18', also=('C03',))
+class GetOperators:
+    """the list returned consists of logical operators only iff every operator of the tree (as the scan visits it) is logical"""
+    kinds = {'operators': 'Stack[ASTOperation]', 'stack': 'Stack[Node]'}
+    result_kind = 'Stack[ASTOperation]'
+    native = False
+
+    def post_logical(self, result):
+        return all(o in LOGICAL_OPS for o in result) == all_ops_logical(self.root)
+
+    def post_arithmetic(self, result):
+        return any(o in ARITH_OPS for o in result) == some_op_arithmetic(self.root)
+
+    def post_aggregation(self, result):
+        return any(o in AGGR_OPS for o in result) == some_op_aggregation(self.root)
+
+    # what has been collected, together with what the waiting sub-trees contain, decides each question for the whole tree
+    def inv_1(self, operators, stack):
+        return ((all(o in LOGICAL_OPS for o in operators) and waiting_all_logical(stack)) == all_ops_logical(self.root)
+                and (any(o in ARITH_OPS for o in operators) or waiting_some_arithmetic(stack)) == some_op_arithmetic(self.root)
+                and (any(o in AGGR_OPS for o in operators) or waiting_some_aggregation(stack)) == some_op_aggregation(self.root))
